@@ -484,7 +484,27 @@ fn judge(rep: &mut Reporter, prop: &str, sc: &Scenario, rng: &mut Rng, seed: u64
         .collect();
     let refs_at = if sc.use_refs_at {
         // (the service never asks for its own namespace: `refs_status_of` removes the local remote)
-        Some((0..n).filter(|_| rng.chance(2, 3)).filter(|i| w.key(*i) != *w.local.public_key()).filter_map(|i| offered[i].at.map(|at| RefsAt { remote: w.key(i), at: at.into() })).collect::<Vec<_>>())
+        // a third of the announced tips are stale: the announcer has moved on since it announced (the
+        // server advertises a newer `rad/sigrefs` than the one named in the announcement)
+        let mut stale = 0;
+        let mut v = vec![];
+        for i in 0..n {
+            if !rng.chance(2, 3) || w.key(i) == *w.local.public_key() {
+                continue;
+            }
+            let Some(mut at) = offered[i].at else { continue };
+            if rng.chance(1, 3) {
+                if let Some(p) = srv.find_commit(at).ok().and_then(|c| c.parent_id(0).ok()) {
+                    at = p;
+                    stale += 1;
+                }
+            }
+            v.push(RefsAt { remote: w.key(i), at: at.into() });
+        }
+        if stale > 0 {
+            rep.count("cases.refs_at-with-stale-announced-tip");
+        }
+        Some(v)
     } else {
         None
     };
